@@ -223,6 +223,42 @@ pub fn handle(op: &str, a: &[&str]) -> Option<Resp> {
                     fail = nb_eq(&lossy_content(ld), sc).map(|w| format!("readers disagree: {}", w));
                 }
             }
+            // lookup by name (after seeded change C06-r8m1): in either reader `get(name)` is the
+            // value of the first field of its own listing with EXACTLY that name (names that differ
+            // in letter case are different fields), so both readers answer a by-name question alike
+            if let (true, Ok(ld), Ok(sd)) = (fail.is_none() && s.len() <= 65_536, &l, Deb822::from_str(&s)) {
+                for (pi, (lp, sp)) in ld.iter().zip(sd.paragraphs()).enumerate() {
+                    let litems: Vec<(String, String)> = lp.iter().map(|(k, v)| (k.to_string(), v.to_string())).collect();
+                    let sitems: Vec<(String, String)> = sp.items().collect();
+                    let mut names: Vec<String> = vec![];
+                    for (k, _) in litems.iter().chain(sitems.iter()) {
+                        for n in [k.clone(), k.to_ascii_lowercase(), k.to_ascii_uppercase()] {
+                            if !names.contains(&n) {
+                                names.push(n);
+                            }
+                        }
+                    }
+                    for n in names.iter().take(24) {
+                        let lw = litems.iter().find(|f| &f.0 == n).map(|f| f.1.clone());
+                        let sw = sitems.iter().find(|f| &f.0 == n).map(|f| f.1.clone());
+                        let lg = lp.get(n).map(|v| v.to_string());
+                        let sg = sp.get(n);
+                        if lg != lw {
+                            fail = Some(format!("paragraph {}: lossy get({:?}) = {:?}, its field listing says {:?}", pi, n, lg, lw));
+                        } else if sg != sw {
+                            fail = Some(format!("paragraph {}: lossless get({:?}) = {:?}, its field listing says {:?}", pi, n, sg, sw));
+                        } else if sp.contains_key(n) != sw.is_some() {
+                            fail = Some(format!("paragraph {}: lossless contains_key({:?}) = {}, its field listing says {}", pi, n, !sw.is_some(), sw.is_some()));
+                        }
+                        if fail.is_some() {
+                            break;
+                        }
+                    }
+                    if fail.is_some() {
+                        break;
+                    }
+                }
+            }
             // the lossy reader's other front end: `from_reader` over the same bytes, whole and
             // through short reads (1 and 3 bytes per call: a multi-byte character then lies across
             // two read() calls), reads what `from_str` reads (after seeded changes C06-r6m1 / C08-r6m1)
@@ -546,6 +582,10 @@ pub fn generate_c06(tier: &str, seed: u64, out: &mut Out) {
     }
     for t in crate::deb::block_boundary_docs() {
         out.req("deb.both", &[es(&t)]);
+    }
+    // names that differ only in letter case are different fields, in both readers
+    for t in ["Foo: first\nfoo: second\n", "foo: 1\nFOO: 2\nFoo: 3\n\nA: x\na: y\n", "Package: a\npackage: b\nPACKAGE: c", "a: 1\nA:\n 2\n"] {
+        out.req("deb.both", &[es(t)]);
     }
     let thorough = tier == "thorough";
     // lenient documents (what either reader tolerates beyond the well-formed documents of
